@@ -326,6 +326,7 @@ impl Prop for C18 {
         Plan {
             stages: vec![
                 Stage { name: "subsets".into(), len: n, chunk: (n / 32).max(16), timeout: Duration::from_secs(1200), what: "registration subsets reached through verif_clear() + the public setters".into() },
+                Stage { name: "schedules".into(), len: super::c13::extra_workloads().len() as u64, chunk: 1, timeout: Duration::from_secs(900), what: "describe() racing set_*_descriptor under the controlled scheduler (all schedules with <= 2 preemptions; results must equal a sequential order; the descriptor registered last must be used afterwards)".into() },
                 Stage { name: "reregister".into(), len: REGS.len() as u64, chunk: 1, timeout: Duration::from_secs(120), what: "each (kind, name) registered twice with different descriptors, no clear in between: the later one must be used (fresh process each)".into() },
                 Stage { name: "fresh".into(), len: (REGS.len() + 2) as u64, chunk: 1, timeout: Duration::from_secs(120), what: "the empty, every singleton and the full configuration, each in a fresh process without the clear hook".into() },
             ],
@@ -346,6 +347,15 @@ impl Prop for C18 {
     fn run(&self, tier: Tier, stage: usize, a: u64, b: u64, out: &mut WorkerOut) {
         expression_engine::register_prefix_op("++", Arc::new(|v| Ok(v)));
         let progs = programs(tier);
+        if stage == 1 {
+            let ws = super::c13::extra_workloads();
+            for i in a..b {
+                out.idx = Some(i);
+                super::c13::check_workload(&ws[i as usize], tier.pick(2, 3), Duration::from_secs(tier.pick(60, 600)), out);
+            }
+            return;
+        }
+        let stage = if stage >= 2 { stage - 1 } else { stage };
         if stage == 1 {
             for i in a..b {
                 out.idx = Some(i);
@@ -390,6 +400,8 @@ impl Prop for C18 {
         if stage == 0 {
             format!("config={:#06x}", configs(tier)[i as usize])
         } else if stage == 1 {
+            super::c13::extra_workloads()[i as usize].name.to_string()
+        } else if stage == 2 {
             format!("decoy then marker for {:?}", REGS[i as usize])
         } else {
             format!("fresh {}", i)
